@@ -569,7 +569,7 @@ class Sampler(BaseSampler, Module):
         # $00a4 uint32_t version;
         self.version = r.uint32()
         # $00a8 uint8_t smp_num[ 128 ];
-        self.note_samples.bytes = r.char(128)
+        self.note_samples.bytes = r.bytes(128)
         # $0128 uint32_t max_version;
         self.max_version = r.uint32(self.INS_VERSION)
         # $012b int32_t editor_cursor;
